@@ -94,7 +94,7 @@ func (r *renderer) nl(indent string, blank bool) { r.nlDecl(indent, blank, false
 func (r *renderer) nlDecl(indent string, blank, decl bool) {
 	// trailing part of the line being ended
 	if r.comments {
-		r.w(r.pick("trail", "", " # trailing comment, see #42 # with [brackets] and : colon", "   ", "\t", "    # trailing comment behind a wide gap", " \t # trailing comment behind blank, tab, blank"))
+		r.w(r.pick("trail", "", " # trailing comment, see #42 # with [brackets] and : colon", "   ", "\t", "    # trailing comment behind a wide gap, was: [user:*, (a or", " \t # trailing comment behind blank, tab, blank"))
 	} else {
 		r.w(r.pick("trail", "", "  ", "\t", " "))
 	}
@@ -102,7 +102,7 @@ func (r *renderer) nlDecl(indent string, blank, decl bool) {
 	r.w(eol)
 	var gaps []string
 	if r.comments {
-		gaps = []string{"", "\n", "   \n", "# full-line comment: define x: [y] # nested\n", "    # indented comment\n", "\n#\n\n"}
+		gaps = []string{"", "\n", "   \n", "# full-line comment: define x: [y] # nested\n", "    # indented comment with brackets that nothing closes: [user, (x, {y\n", "\n#\n\n"}
 	} else {
 		gaps = []string{"", "\n", "   \n", "\n\n", " \n", "\n   \n"}
 	}
